@@ -7,10 +7,14 @@ cycle search and compares with controller.check_deadlock(); reported cycles are 
 is checked for victim choice, release and cycle removal.  Every history ends with a closing probe (the non-waiting end
 of a wait chain asks for something a chain member holds), because a wrong wait edge is only observable through a cycle.
 """
+import json
+import os
+import subprocess
 import sys
+import tempfile
 
 from rv import core
-from rv.c15_world import Cfg, World, random_cfg, random_step, guided_step, BAD_KINDS, READ_KINDS, TICKS
+from rv.c15_world import (Cfg, World, random_cfg, random_step, guided_step, late_settings, set_tz, BAD_KINDS, READ_KINDS, TICKS)
 
 PID = "C15"
 LEVEL = "exploration"
@@ -24,6 +28,14 @@ RULE = ("2-4 operations x 2-6 resources (preemptable or not) x priorities (small
         "callbacks, clock jumps up to 400 days with watchdog timeouts, registry changes, id case/clash variants, equal-but-distinct id objects, "
         "age gaps from 1 microsecond to > 1 year, controller built directly or through CoordinationSystem); two differently configured worlds "
         "interleaved (optionally sharing one Watchdog); one-instance histories of > 100 000 steps with > 20 000 distinct operations; "
+        "round 4: rarely used public methods anywhere in a history (ResourceLock.pop_next_waiter - scheduler-managed hand-off with the popped "
+        "operation still blocked -, release_all_resources called directly, OperationContext.enter_phase/set_result, CoordinationSystem.execute_operation "
+        "with transient operations whose work function re-enters the world, one-shot iterables, falsy callables, every exception type); public settings "
+        "assigned / toggled / withdrawn mid-session (deadlock_strategy incl. unknown / falsy values, priorities, watchdog_exempt, allow_preemption, timeouts, "
+        "a replaced Watchdog, checkpoints, created_at) incl. worlds constructed without them; bool / Fraction / Decimal priorities; ids that are str-subclass "
+        "instances, identity-only sentinel objects, or contain regex / format metacharacters, NUL, newlines, lone surrogates; copy / deepcopy / pickle of the "
+        "objects mid-history with the history continued on the duplicate; forced collections between requests; cases run in a process time zone far from "
+        "UTC with the zone switched mid-history; a small share of the workload again in a child interpreter under -O; "
         "a blocked operation only retries its acquisition (or makes calls that fail); non-trivial = history contains >= 1 BLOCKED; "
         "distinct = trace of (owner map, wait set)")
 ASSUMPTIONS = ["an operation is 'currently blocked' from a BLOCKED result until it acquires that resource, completes or is aborted, and meanwhile only retries that acquisition "
@@ -32,7 +44,12 @@ ASSUMPTIONS = ["an operation is 'currently blocked' from a BLOCKED result until 
                "each release that returned True takes one away, completion/abort/kill take all; a history whose results contradict that (lock "
                "discipline broken - C14's subject) is abandoned, not judged",
                "ties in priority/age: any minimal member is an acceptable victim; priority is the operation's current (possibly inherited) priority; "
-               "an unknown deadlock_strategy only has to kill a member; when a timeout sweep terminates the deadlock victim for another reason its choice is not judged"]
+               "an unknown deadlock_strategy only has to kill a member; when a timeout sweep terminates the deadlock victim for another reason its choice is not judged",
+               "every obligation follows the CURRENT value of a public setting (the strategy, priority, age the harness assigned last); 'oldest' is judged on the "
+               "created_at stamps and, independently of the clock they were taken from, on the harness' own record (start order on the virtual clock + assigned "
+               "age shifts) where two members differ by >= 1 hour under both readings",
+               "an operation taken off a lock's queue by pop_next_waiter() has acquired nothing: it stays blocked until its retry succeeds; "
+               "execute_operation only asks for non-preemptable resources, so its transient operation is either refused at once or holds them while its work function runs"]
 
 CONFIGS_22 = [  # (priorities, preemptable flags)
     ((1, 1), (False, False)), ((1, 2), (False, False)), ((1, 2), (True, False)), ((2, 1), (True, True)), ((1, 1), (True, False)),
@@ -87,24 +104,159 @@ def sizes(tier):
 LONG_STEPS = 160000
 
 
+PROBE = bool(os.environ.get("C15_PROBE"))      # set only for the small child run under `python -O` (see extra_parent)
+PROBE_CASES = 1600
+
+
 def plan(tier):
+    if PROBE:
+        return {"cases": PROBE_CASES, "shards": 1, "min_nontrivial": 1, "timeout": 600, "require": {}}
     depth, div, nsweep, nlong, extra = sizes(tier)
     return {"cases": nlong + nsweep + extra, "shards": 8 if tier == "quick" else 14, "min_nontrivial": 1000,
-            "timeout": 600 if tier == "quick" else 2400,
-            "require": {"steps_compared": 200000, "histories_with_true_cycle": 200, "histories_with_owner_change_while_waiting": 200,
+            "timeout": 1500 if tier == "quick" else 5400,      # generous: the machine is shared (load inflates wall time many times); never a verdict
+            "require": {"steps_compared": 180000, "histories_with_true_cycle": 200, "histories_with_owner_change_while_waiting": 200,
                         "true_cycle_steps": 1000, "reported_cycles_validated": 1000, "watchdog_deadlock_kills": 100, "blocked_results": 20000,
                         "repeated_deadlock_histories": 300,
                         # round 3
-                        "closing_probes": 2000, "failed_acquires_while_blocked": 300, "partial_releases": 300, "preemptions": 500,
+                        "closing_probes": 1500, "failed_acquires_while_blocked": 300, "partial_releases": 300, "preemptions": 500,
                         "finished_after_being_preempted": 100, "reads_interleaved": 1000, "final_comparisons_after_unobserved_steps": 200,
                         "watchdog_without_prior_read": 100, "priority_boosts": 100, "clock_jumps": 300, "raising_callbacks": 40,
                         "reentrant_acquires_from_callback": 50, "registry_changes": 100, "victims_judged_priority": 100,
                         "victims_judged_oldest": 50, "paired_world_histories": 300, "shared_watchdog_histories": 50,
                         "system_path_histories": 300, "refused_releases": 1000,
-                        "max:long_history_steps": 20000, "max:long_history_distinct_operations": 6000}}
+                        # round 4
+                        "waiters_popped": 1500, "popped_while_still_blocked": 1000, "release_all_calls": 1000, "context_api_calls": 150,
+                        "transient_operations": 80, "work_functions_run": 60, "steps_inside_work_function": 80, "one_shot_iterables": 30,
+                        "settings_changed_mid_session": 2000, "setting:strategy": 500, "setting:priority": 150, "setting:exempt": 200,
+                        "setting:preempt": 60, "setting:watchdog": 80, "setting:checkpoints": 150, "setting:age": 500,
+                        "histories_with_settings_assigned_later": 500, "duplication_attempts": 150, "forced_collections": 300, "histories_far_from_utc": 300,
+                        "time_zone_switches": 30, "optimized_interpreter_cases": 300, "public_names_enumerated": 15,
+                        "max:long_history_steps": 20000, "max:long_history_distinct_operations": 5000, "max:long_history_watchdog_events": 1500}}
+
+
+def run_probe_case(ctx, n):
+    """the small workload of the `python -O` child: shallow sweep items, hand-off / stale-entry / plain hostile histories, legacy histories"""
+    if not sys.flags.optimize:
+        ctx.inconclusive("the optimized-interpreter probe is not running under -O")
+        return
+    ctx.count("optimized_interpreter_cases")
+    k, i = n % 5, n // 5
+    if k == 0:
+        per = sweep_total(2)
+        prios, pre = CONFIGS_22[(i // per) % len(CONFIGS_22)]
+        w = World(ctx, Cfg(nops=2, nres=2, prios=prios, pre=pre, strategy="priority"), ctx.rng(n, "w"))
+        for step in decode(i % per, 2) + [("acquire", 0, 1), ("acquire", 1, 0), ("watchdog",)]:
+            if not w.apply(step):
+                break
+        return w.finish()
+    rng = ctx.rng(n)
+    if k == 1:
+        return run_legacy(ctx, n, rng)
+    return run_hostile(ctx, n, rng, prefix=[None, "stale", "handoff"][k - 2])
+
+
+def extra_parent(pctx):
+    api_report(pctx)
+    if PROBE:
+        return
+    # interpreter mode: a guard written as `assert` disappears under -O; the same obligations on a small workload in a child
+    fd, out = tempfile.mkstemp(prefix="operon-verif-C15-opt-", suffix=".json", dir="/var/tmp")
+    os.close(fd)
+    os.unlink(out)
+    cmd = [sys.executable, "-O", "-B", "-m", "checks.c15_deadlock", "--tier", pctx.tier, "--seed", str(pctx.seed), "--worker", "0", "1", "--out", out]
+    try:
+        try:
+            r = subprocess.run(cmd, env=dict(os.environ, C15_PROBE="1"), cwd=core.VERIF, capture_output=True, text=True, timeout=900)
+        except subprocess.TimeoutExpired:
+            pctx.inconclusive("the optimized-interpreter child did not finish within its hard timeout")
+            return
+        if not os.path.exists(out):
+            pctx.inconclusive("the optimized-interpreter child produced no result (rc=%s): %s" % (r.returncode, (r.stdout + r.stderr)[-600:]))
+            return
+        with open(out) as f:
+            part = json.load(f)
+    finally:
+        if os.path.exists(out):
+            os.unlink(out)
+    if part.get("status") != "ok":
+        pctx.inconclusive("the optimized-interpreter child failed: %s" % (part.get("notes") or ["?"])[-1][-800:])
+        return
+    for reason in part.get("inconclusive_reasons", []):
+        pctx.inconclusive(reason)
+    for k, v in part["counters"].items():
+        if k == "optimized_interpreter_cases":
+            pctx.count(k, v)
+        elif not k.startswith("max:"):
+            pctx.count("optimized:" + k, v)
+    seen = {}
+    for v in part["violations"]:
+        pctx.case = "python -O child, case %r" % (v.get("case"),)
+        pctx.violation(v["mechanism"], "[under python -O] " + v["what"], v["witness"])
+        seen[v["mechanism"]] = seen.get(v["mechanism"], 0) + 1
+    for m, cnt in part["violation_counts"].items():      # keep the counts of mechanisms whose witnesses were capped
+        extra = cnt - seen.get(m, 0)
+        if extra > 0:
+            pctx.violation_counts[m] = pctx.violation_counts.get(m, 0) + extra
+    pctx.case = None
+
+
+# public names the harness addresses directly (everything else that dir() / dataclasses.fields finds is reported, informational)
+API_USED = {
+    "CellCycleController": {"register_resource", "start_operation", "advance", "acquire_resource", "release_resource", "release_all_resources",
+                            "check_deadlock", "complete_operation", "abort_operation", "stats", "checkpoints", "resources", "dependency_graph",
+                            "active_operations"},
+    "ResourceLock": {"pop_next_waiter", "is_available", "hold_duration", "owner", "allow_preemption", "resource_id"},
+    "DependencyGraph": {"get_blocking_chain"},
+    "DeadlockInfo": {"agents", "cycle"},
+    "OperationContext": {"enter_phase", "set_result", "priority", "created_at", "metadata", "phase", "execution_complete", "validation_passed",
+                         "resources_acquired", "operation_id"},
+    "Checkpoint": {"phase", "condition", "name", "timeout"},
+    "Watchdog": {"check", "execute", "manual_kill", "stats", "deadlock_strategy", "max_operation_time", "starvation_timeout", "progress_timeout"},
+    "ApoptosisEvent": {"operation_id", "reason"},
+    "PriorityInheritance": {"check_and_boost", "restore_priority", "get_boost", "is_boosted", "clear_all", "stats"},
+    "CoordinationSystem": {"register_resource", "start_operation", "execute_operation", "run_maintenance", "kill_operation", "health", "shutdown",
+                           "controller", "watchdog", "priority_manager", "max_operation_time", "starvation_timeout", "progress_timeout"},
+}
+KWARGS_USED = {"start_operation": {"operation_id", "agent_id", "priority"}, "register_resource": {"lock", "resource_id", "allow_preemption"},
+               "execute_operation": {"operation_id", "agent_id", "work_fn", "resources", "validate_fn", "priority"},
+               "manual_kill": {"controller", "operation_id", "reason"}, "kill_operation": {"operation_id", "reason"},
+               "abort_operation": {"ctx", "reason"}}
+
+
+def api_report(pctx):
+    import dataclasses
+    import inspect
+    import operon_ai.coordination.controller as m1
+    import operon_ai.coordination.types as m2
+    import operon_ai.coordination.watchdog as m3
+    import operon_ai.coordination.priority as m4
+    import operon_ai.coordination.system as m5
+    for cname, used in API_USED.items():
+        cls = next((getattr(m, cname) for m in (m1, m2, m3, m4, m5) if hasattr(m, cname)), None)
+        if cls is None:
+            pctx.count("api_class_not_found:" + cname)
+            continue
+        names = {x for x in dir(cls) if not x.startswith("_")}
+        if dataclasses.is_dataclass(cls):
+            names |= {f.name for f in dataclasses.fields(cls) if not f.name.startswith("_")}
+        for x in sorted(names):
+            pctx.count("public_names_enumerated")
+            if x not in used:
+                pctx.count("api_not_addressed_directly:%s.%s" % (cname, x))
+            fn = getattr(cls, x, None)
+            if x in used and inspect.isfunction(fn):
+                try:
+                    params = [q for q in inspect.signature(fn).parameters if q != "self"]
+                except (TypeError, ValueError):
+                    continue
+                for q in params:
+                    if x in KWARGS_USED and q not in KWARGS_USED[x]:
+                        pctx.count("api_parameter_never_passed:%s.%s(%s)" % (cname, x, q))
 
 
 def run_case(ctx, n):
+    if PROBE:
+        return run_probe_case(ctx, n)
     depth, div, nsweep, nlong, extra = sizes(ctx.tier)
     if n < nlong:
         return run_long(ctx, n)
@@ -125,12 +277,14 @@ def run_case(ctx, n):
         return
     rng = ctx.rng(n)
     fam = rng.random()
-    if fam < 0.40:
+    if fam < 0.35:
         return run_legacy(ctx, n, rng)
-    if fam < 0.70:
-        return run_hostile(ctx, n, rng, stale_prefix=False)
-    if fam < 0.85:
-        return run_hostile(ctx, n, rng, stale_prefix=True)
+    if fam < 0.63:
+        return run_hostile(ctx, n, rng, prefix=None)
+    if fam < 0.76:
+        return run_hostile(ctx, n, rng, prefix="stale")
+    if fam < 0.86:
+        return run_hostile(ctx, n, rng, prefix="handoff")
     return run_pair(ctx, n, rng)
 
 
@@ -215,33 +369,85 @@ def stale_prefix_steps(rng, cfg):
     return steps
 
 
-def run_hostile(ctx, n, rng, stale_prefix):
+def handoff_prefix_steps(rng, cfg):
+    """scheduler-managed hand-off: y blocks on r held by x; x lets go of r (release / release_all / finishing); the caller takes the next
+    waiter off the lock's queue (pop_next_waiter) - but before y retries somebody else (x again or a third operation) takes r and then
+    asks for what y holds"""
+    x, y = rng.sample(range(cfg.nops), 2)
+    z = rng.choice([s for s in range(cfg.nops) if s != y])
+    r, r2 = rng.sample(range(cfg.nres), 2)
+    steps = [("acquire", x, r)] * rng.randint(1, 2) + [("acquire", y, r2), ("acquire", y, r)]
+    if rng.random() < 0.3:
+        steps.insert(rng.randrange(len(steps)), ("pop", r))
+    steps += rng.choice([[("release", x, r), ("release", x, r)], [("release_all", x)], [("abort", x), ("start", x)], [("complete", x), ("fresh", x)]])
+    steps += [("pop", r)] * rng.choice([0, 1, 1, 1, 2])
+    steps += [("acquire", z, r), ("acquire", z, r2)]
+    if rng.random() < 0.5:
+        steps.append(("watchdog",))
+    return steps
+
+
+def zone_prefix_steps(rng, cfg):
+    """the process time zone changes (the local clock steps by up to 26 h either way) between the creation of two operations of
+    different age that then deadlock; the watchdog picks by age"""
+    from datetime import timedelta
+    from rv.c15_world import TZS
+    x, y = rng.sample(range(cfg.nops), 2)
+    r, r2 = rng.sample(range(cfg.nres), 2)
+    steps = [("set", "strategy", "oldest"), ("set", "age", x, rng.choice([timedelta(hours=2), timedelta(hours=25), timedelta(hours=3)])),
+             ("tz", rng.choice(TZS)), (rng.choice(["abort", "complete", "kill"]), y), (rng.choice(["start", "fresh"]), y)]
+    if rng.random() < 0.3:
+        steps.append(("set", "age", y, timedelta(microseconds=1)))
+    steps += [("acquire", x, r), ("acquire", y, r2), ("acquire", x, r2), ("acquire", y, r), ("watchdog",)]
+    return steps
+
+
+def run_hostile(ctx, n, rng, prefix):
     cfg = random_cfg(rng)
-    prefix = stale_prefix_steps(rng, cfg) if stale_prefix else []
+    if prefix is None and cfg.tz and rng.random() < 0.6:
+        prefix = "zone"
+    prefix = stale_prefix_steps(rng, cfg) if prefix == "stale" else handoff_prefix_steps(rng, cfg) if prefix == "handoff" else \
+        zone_prefix_steps(rng, cfg) if prefix == "zone" else []
     length = rng.randint(6, 16)
     guided = rng.choice([0.3, 0.6, 0.8])
     clock = new_clock() if cfg.timed else None
+    pending = late_settings(cfg, rng) if cfg.late else []
 
     def body():
         w = World(ctx, cfg, ctx.rng(n, "w"), clock=clock)
         if cfg.path == "system":
             ctx.count("system_path_histories")
+        if cfg.late:
+            ctx.count("histories_with_settings_assigned_later")
         for step in prefix:
             if not w.apply(step):
                 break
         for _ in range(length):
-            step = guided_step(w, rng) if rng.random() < guided else random_step(w, rng)
+            if pending and rng.random() < 0.4:
+                step = pending.pop(0)
+            else:
+                step = guided_step(w, rng) if rng.random() < guided else random_step(w, rng)
             if not w.apply(step):
                 break
         w.finish()
         if n % 20011 == 3:
             ctx.sample(w.witness())
 
+    def in_zone():
+        if not cfg.tz:
+            return body()
+        old = set_tz(cfg.tz)        # this case owns the process time zone until it ends
+        try:
+            ctx.count("histories_far_from_utc")
+            body()
+        finally:
+            set_tz(old)
+
     if clock is not None:
         with timed(clock):
-            body()
+            in_zone()
     else:
-        body()
+        in_zone()
 
 
 # ---- family: two differently configured worlds in one process, used alternately ------------------------------------
@@ -249,19 +455,25 @@ def run_pair(ctx, n, rng):
     from operon_ai.coordination.watchdog import Watchdog
     ca, cb = random_cfg(rng), random_cfg(rng)
     for c in (ca, cb):      # same ids in both worlds so that any shared state collides
-        c.names = ca.names
+        c.names = ca.names if ca.names != "sentinel" else "plain"
+        c.idtype = ca.idtype
         c.checkpoints = None
+        c.tz = None
+        c.late = False
     shared = None
+    box = None
     if ca.path == "direct" and cb.path == "direct" and rng.random() < 0.6:
         cb.strategy = ca.strategy
         cb.timeouts = ca.timeouts
         shared = Watchdog(deadlock_strategy=ca.strategy, **(ca.timeouts or {}))
+        box = [ca.strategy]
         ctx.count("shared_watchdog_histories")
     clock = new_clock() if (ca.timed or cb.timed) else None
     length = rng.randint(10, 24)
 
     def body():
-        ws = [World(ctx, ca, ctx.rng(n, "wa"), clock=clock, wd=shared, tag="A"), World(ctx, cb, ctx.rng(n, "wb"), clock=clock, wd=shared, tag="B")]
+        ws = [World(ctx, ca, ctx.rng(n, "wa"), clock=clock, wd=shared, tag="A", strat=box),
+              World(ctx, cb, ctx.rng(n, "wb"), clock=clock, wd=shared, tag="B", strat=box)]
         ctx.count("paired_world_histories")
         for _ in range(length):
             w = ws[rng.randrange(2)]
@@ -290,7 +502,7 @@ def run_long(ctx, n):
     nops = nres = 4
     cfg = Cfg(nops=nops, nres=nres, prios=tuple(rng.choice([1, 2, 3, 5]) for _ in range(nops)), pre=tuple(rng.random() < 0.4 for _ in range(nres)),
               strategy=["priority", "oldest"][n % 2], path=["direct", "system"][(n // 2) % 2], fresh_ids=True, observe=0.5, preread=(n % 3 != 0),
-              keep=60, agents=rng.choice(["distinct", "same"]))
+              keep=60, agents=rng.choice(["distinct", "same"]), keep_watchdog=True, eqlen=(n % 2 == 1))
     w = World(ctx, cfg, ctx.rng(n, "w"))
     for i in range(LONG_STEPS):
         k = rng.random()
@@ -316,6 +528,7 @@ def run_long(ctx, n):
         if not w.apply(step):
             break
     w.finish()
+    ctx.maxc("long_history_watchdog_events", len(w.wd.events))
     ctx.maxc("long_history_steps", w.nsteps)
     ctx.maxc("long_history_distinct_operations", w.nfresh)
     ctx.count("long_histories")
